@@ -46,6 +46,10 @@ def gen_cfg(rng, focus, solvers=('nm', 'powell', 'de', 'de2')):
                 box['change'] = {'at': box['when'] + rng.randint(1, 4), 'lo': nb['lo'], 'hi': nb['hi'],
                                  'remove_first': rng.random() < 0.3}
             box['none_entries'] = rng.random() < 0.15
+            if rng.random() < 0.25 and box['shape'] == 'finite':
+                # bounds given as python ints (whole-number box); a later change to fractional bounds must be taken as given
+                box['lo'] = [float(math.floor(v)) for v in box['lo']]; box['hi'] = [float(math.ceil(v)) + (1.0 if math.ceil(v) == math.floor(l) else 0.0) for v, l in zip(box['hi'], box['lo'])]
+                box['int_typed'] = True
         cfg['box'] = box
         if cfg['solver'] in ('de', 'de2') and cfg.get('init') == 'random' and rng.random() < 0.6:
             # start inside the box (finite sides), else keep the default neighbourhood of x0 (possibly outside)
@@ -126,8 +130,10 @@ class Run(object):
         return self.F(cm)
 
     # ---- configuration through the public API, mirrored in the ledger
-    def install_box(self, s, lo, hi, tight, clip, none_entries=False):
+    def install_box(self, s, lo, hi, tight, clip, none_entries=False, int_typed=False):
         alo, ahi = list(lo), list(hi)
+        if int_typed:
+            alo = [int(v) if (math.isfinite(v) and v == int(v)) else v for v in alo]; ahi = [int(v) if (math.isfinite(v) and v == int(v)) else v for v in ahi]
         if none_entries:
             alo = [None if (i % 2 == 0) else v for i, v in enumerate(alo)]
         kw = {}
@@ -173,7 +179,7 @@ class Run(object):
         if cfg.get('reducer') == 'mean' and not cfg.get('reducer_arraylike', True):
             self.red = REDUCERS['sum']
         if box and box['when'] == 0:
-            self.install_box(s, box['lo'], box['hi'], box['tight'], box['clip'], box.get('none_entries', False))
+            self.install_box(s, box['lo'], box['hi'], box['tight'], box['clip'], box.get('none_entries', False), box.get('int_typed', False))
             self.box_from_start = True
         if cons and cons['when'] == 0:
             self.install_cons(s, cons['spec'], cons['inplace'], pending if bykw else None)
@@ -189,7 +195,7 @@ class Run(object):
         msg = None
         for step in range(cfg['steps']):
             if box and box['when'] == step and step > 0:
-                self.install_box(s, box['lo'], box['hi'], box['tight'], box['clip'], box.get('none_entries', False))
+                self.install_box(s, box['lo'], box['hi'], box['tight'], box['clip'], box.get('none_entries', False), box.get('int_typed', False))
             if box and box.get('change') and box['change']['at'] == step:
                 ch = box['change']
                 if ch.get('remove_first'):
